@@ -170,7 +170,9 @@ def build_units(units):
             if obj is None:
                 # bisect: which registrations do not compile? (never a violation, DESIGN 2.1)
                 obj = bisect_tu(u, i, err)
-            objs.setdefault(u.name, []).append(obj)
+            objs.setdefault(u.name, [])
+            if obj:
+                objs[u.name].append(obj)
     for u in units:
         key = sha(*(objs[u.name] + [eng, u.cfg]))
         binp = os.path.join(BUILD, 'bin', '%s-%s' % (u.name, key))
